@@ -534,6 +534,45 @@ impl History {
     }
 }
 
+impl History {
+    /// More statements than a machine word has bits, nearly all of them facts: a small random
+    /// ADF embedded at positions congruent modulo 64, and a history of searches on it (every
+    /// search with every heuristic, the counting variants, the lazy semantics). Judged against
+    /// the fresh twin and the second execution like every other history.
+    fn generate_sparse_large(&self, rng: &mut Rng) -> HistCase {
+        let n = *rng.pick(&[66usize, 70, 72, 130]);
+        let k = rng.range(2, 4) as usize;
+        let depth = rng.range(1, 2) as u32;
+            let small = AdfSpec::gen(rng, k, depth, "s");
+        let base = rng.below((n - 64) as u64) as usize;
+        let mut positions = vec![base, base + 64];
+        while positions.len() < k {
+            let p = if base + 32 < n && rng.chance(1, 2) { base + 32 } else { rng.below(n as u64) as usize };
+            if !positions.contains(&p) {
+                positions.push(p);
+            }
+        }
+        if rng.chance(1, 2) {
+            positions.reverse();
+        }
+        let salt = rng.below(7) as usize;
+        let spec = refsem::Sparse::embed(&small, &positions, n, &|i| (i * 5 + salt) % 3 != 0);
+        let len = rng.range(2, 7) as usize;
+        let steps = (0..len)
+            .map(|_| match rng.below(10) {
+                0 => Step::Grounded,
+                1 => Step::Stable,
+                2 => Step::Complete,
+                3 => Step::StableCountA,
+                4 => Step::StableCountB,
+                5 | 6 => Step::TwoValNogood(gen_heu(rng)),
+                _ => Step::Nogood(gen_heu(rng)),
+            })
+            .collect();
+        HistCase { spec, build: Build::Native, steps }
+    }
+}
+
 impl Scenario for History {
     type Case = HistCase;
     fn name(&self) -> &'static str {
@@ -553,6 +592,9 @@ impl Scenario for History {
     fn generate(&self, rng: &mut Rng, thorough: bool) -> HistCase {
         if self.property != "C11" && rng.chance(1, if thorough { 300 } else { 500 }) {
             return self.generate_large(rng);
+        }
+        if self.property == "C11" && rng.chance(1, if thorough { 300 } else { 500 }) {
+            return self.generate_sparse_large(rng);
         }
         let n = rng.range(1, 5) as usize;
         let depth = rng.range(1, 3) as u32;
